@@ -105,6 +105,7 @@ func unitC01direct(e common.Env, p *common.Part) {
 				key := fmt.Sprintf("bls direct n=%d t=%d ids=%v seed=%d", n, t, ids, r)
 				p.Begin(key)
 				d := newDrun(scheme{Name: "bls"}, ids, t, rng)
+				d.noFIFO = r%4 == 3 // every fourth key generation: any queued message next (OnMsg has no ordering contract)
 				ctx, cancel := context.WithTimeout(context.Background(), 60*time.Second)
 				ok := d.run(ctx, cancel, ids, 60*time.Second)
 				viol := ""
